@@ -718,25 +718,46 @@ func flagMapping(c *Ctx, g *load.G, rule string) {
 	}
 	// bootstrap front-end: ignore := strings.HasSuffix(p.tok.lit, "i"); lit.IgnoreCase = ignore
 	if bp := g.Pkg("bootstrap"); bp != nil {
-		fd := load.FuncDecl(bp, "Parser", "primaryExpr")
+		// whichever function of the bootstrap parser builds the literal node: on each of its normalised paths the flag
+		// stored is "the literal token ends in i" (either spelling of the suffix test)
 		okB := false
-		detail := "primaryExpr not found"
-		if fd != nil {
-			defs := map[string]string{}
+		detail := "no store to the IgnoreCase flag of a literal node found"
+		nStores := 0
+		for _, fd := range load.AllFuncDecls(bp) {
+			if fd.Body == nil || fd.Recv == nil {
+				continue
+			}
+			stores := false
 			ast.Inspect(fd.Body, func(n ast.Node) bool {
-				if as, ok := n.(*ast.AssignStmt); ok && len(as.Lhs) == 1 && len(as.Rhs) == 1 {
-					defs[nospace(as.Lhs[0])] = nospace(as.Rhs[0])
+				if as, ok := n.(*ast.AssignStmt); ok {
+					for _, l := range as.Lhs {
+						if se, ok := l.(*ast.SelectorExpr); ok && se.Sel.Name == "IgnoreCase" && namedOf(bp.TypesInfo.TypeOf(se.X)) == "LitMatcher" {
+							stores = true
+						}
+					}
 				}
 				return true
 			})
-			ast.Inspect(fd.Body, func(n ast.Node) bool {
-				if as, ok := n.(*ast.AssignStmt); ok && strings.HasSuffix(nospace(as.Lhs[0]), ".IgnoreCase") {
-					src := nospace(as.Rhs[0])
-					detail = src + " (:= " + defs[src] + ")"
-					okB = defs[src] == `strings.HasSuffix(p.tok.lit,"i")`
+			if !stores {
+				continue
+			}
+			rv := recvName(fd)
+			T := rv + ".tok.lit"
+			forms := map[string]bool{`strings.HasSuffix(` + T + `,"i")`: true, "len(" + T + ")>0&&" + T + "[len(" + T + ")-1]=='i'": true}
+			okAll := true
+			for _, p := range c.pkgNorm("bootstrap").normPaths(fd) {
+				for _, e := range p {
+					if e.Kind == "set" && strings.Contains(e.Text, ".IgnoreCase=") {
+						nStores++
+						v := e.Text[strings.Index(e.Text, ".IgnoreCase=")+len(".IgnoreCase="):]
+						if !forms[v] {
+							okAll = false
+							detail = v
+						}
+					}
 				}
-				return true
-			})
+			}
+			okB = okAll && nStores > 0
 		}
 		r.Check(okB, rule, "A.bootstrap/parser.go:LitMatcher:ignore-case-suffix", "", "bootstrap/parser.go", "IgnoreCase = (the literal token ends in i)", "IgnoreCase is assigned "+detail)
 	}
